@@ -882,4 +882,295 @@ theorem dictGet_of_mem (d : Items) (hnd : (keys d).Nodup) (p : PStr × PyVal) (h
       simp only [dictGet, List.lookup, this]
       exact ih (by simpa [keys] using hnd.2) hp
 
+/-! ### histories -/
+
+theorem getElem?_modifyAt {α : Type} (l : List α) (i j : Nat) (f : α → α) :
+    (modifyAt l i f)[j]? = if j = i then l[j]?.map f else l[j]? := by
+  induction l generalizing i j with
+  | nil => simp [modifyAt]
+  | cons a l ih => cases i <;> cases j <;> simp [modifyAt, ih]
+
+theorem length_modifyAt {α : Type} (l : List α) (i : Nat) (f : α → α) : (modifyAt l i f).length = l.length := by
+  induction l generalizing i with
+  | nil => simp [modifyAt]
+  | cons a l ih => cases i <;> simp [modifyAt, ih]
+
+theorem mutateTag_get_other (t : TagAttrs) (k k' : PStr) (op : ListOp) (h : k' ≠ k) :
+    dictGet (mutateTag t k op).items k' = dictGet t.items k' := by
+  unfold mutateTag
+  cases hg : dictGet t.items k with
+  | none => rfl
+  | some v => exact dictGet_set_other _ _ _ _ h
+
+theorem mutateTag_get_self (t : TagAttrs) (k : PStr) (op : ListOp) :
+    dictGet (mutateTag t k op).items k = (dictGet t.items k).map (mutateValue op) := by
+  unfold mutateTag
+  cases hg : dictGet t.items k with
+  | none => simp [hg]
+  | some v => simp [dictGet_set_self]
+
+theorem mutateTag_cls (t : TagAttrs) (k : PStr) (op : ListOp) :
+    (mutateTag t k op).cls = t.cls ∧ (mutateTag t k op).listCls = t.listCls ∧
+    keys (mutateTag t k op).items = keys t.items := by
+  unfold mutateTag
+  cases hg : dictGet t.items k with
+  | none => exact ⟨rfl, rfl, rfl⟩
+  | some v =>
+    refine ⟨rfl, rfl, ?_⟩
+    show keys (dictSet t.items k (mutateValue op v)) = keys t.items
+    rw [keys_dictSet, has_of_get _ _ _ hg]; simp
+
+/-! ### splitting distributes over whitespace-separated concatenation -/
+
+theorem splitGo_ws_mid (s t cur : PStr) (w : Nat) (hw : isWs w = true) :
+    splitGo (s ++ w :: t) cur = splitGo s cur ++ splitGo t [] := by
+  induction s generalizing cur with
+  | nil =>
+    cases cur with
+    | nil => simp [splitGo, hw]
+    | cons a as => simp [splitGo, hw]
+  | cons c s ih =>
+    cases hc : isWs c with
+    | true =>
+      cases cur with
+      | nil => simp only [List.cons_append, splitGo, hc, if_true, List.isEmpty_nil]; exact ih []
+      | cons a as =>
+        simp only [List.cons_append, splitGo, hc, if_true, List.isEmpty_cons, Bool.false_eq_true, if_false,
+          List.cons_append]
+        rw [ih []]
+    | false =>
+      simp only [List.cons_append, splitGo, hc, Bool.false_eq_true, if_false]
+      exact ih _
+
+theorem splitWs_append_ws (s t : PStr) (w : Nat) (hw : isWs w = true) :
+    splitWs (s ++ w :: t) = splitWs s ++ splitWs t := splitGo_ws_mid s t [] w hw
+
+theorem splitWs_joinSp_flat (l : List PStr) : splitWs (joinSp l) = l.flatMap splitWs := by
+  induction l with
+  | nil => simp [joinSp, splitWs, splitGo]
+  | cons t ts ih =>
+    cases ts with
+    | nil => simp [joinSp]
+    | cons t' ts' =>
+      simp only [joinSp] at ih ⊢
+      rw [splitWs_append_ws _ _ 32 isWs_space, List.flatMap_cons, ih]
+
+/-! ### the table, generically -/
+
+theorem lookup_of_mem_nodup (m : CdataMap) (hnd : (m.map (·.1)).Nodup) (e : PStr × List PStr) (he : e ∈ m) :
+    m.lookup e.1 = some e.2 := by
+  induction m with
+  | nil => simp at he
+  | cons q rest ih =>
+    obtain ⟨k0, v0⟩ := q
+    simp only [List.map_cons, List.nodup_cons] at hnd
+    rcases List.mem_cons.mp he with rfl | he
+    · simp [List.lookup]
+    · have hne : e.1 ≠ k0 := by
+        intro h; apply hnd.1; rw [← h]; exact List.mem_map.mpr ⟨e, he, rfl⟩
+      have : (e.1 == k0) = false := by simpa using hne
+      simp only [List.lookup, this]
+      exact ih hnd.2 he
+
+theorem mem_of_lookup (m : CdataMap) (k : PStr) (set : List PStr) (h : m.lookup k = some set) : (k, set) ∈ m := by
+  induction m with
+  | nil => simp [List.lookup] at h
+  | cons q rest ih =>
+    obtain ⟨k0, v0⟩ := q
+    by_cases hk : k = k0
+    · subst hk; simp [List.lookup] at h; subst h; simp
+    · have : (k == k0) = false := by simpa using hk
+      simp only [List.lookup, this] at h
+      exact List.mem_cons_of_mem _ (ih h)
+
+/-- an attribute no entry lists is never multi-valued, whatever the element -/
+theorem isMulti_false_of_not_listed (m : CdataMap) (lower : PStr → PStr) (tag a : PStr)
+    (h : ∀ e ∈ m, a ∉ e.2) : isMulti m lower tag a = false := by
+  unfold isMulti
+  have h1 : ∀ k set, m.lookup k = some set → a ∉ set := by
+    intro k set hl
+    exact h _ (mem_of_lookup m k set hl)
+  cases hs : m.lookup star with
+  | none =>
+    cases ht : m.lookup (lower tag) with
+    | none => simp
+    | some set => simp; exact h1 _ _ ht
+  | some su =>
+    cases ht : m.lookup (lower tag) with
+    | none => simp; exact h1 _ _ hs
+    | some set => simp; exact ⟨h1 _ _ hs, h1 _ _ ht⟩
+
+theorem isMulti_of_entry (m : CdataMap) (lower : PStr → PStr) (tag a : PStr) (hnd : (m.map (·.1)).Nodup)
+    (e : PStr × List PStr) (he : e ∈ m) (ha : a ∈ e.2) (hk : e.1 = star ∨ e.1 = lower tag) :
+    isMulti m lower tag a = true := by
+  have hl := lookup_of_mem_nodup m hnd e he
+  unfold isMulti
+  rcases hk with hk | hk
+  · rw [hk] at hl; simp [hl, ha]
+  · rw [hk] at hl; simp [hl, ha]
+
+theorem entry_of_isMulti (m : CdataMap) (lower : PStr → PStr) (tag a : PStr) (h : isMulti m lower tag a = true) :
+    ∃ e ∈ m, a ∈ e.2 ∧ (e.1 = star ∨ e.1 = lower tag) := by
+  unfold isMulti at h
+  cases hs : m.lookup star with
+  | none =>
+    cases ht : m.lookup (lower tag) with
+    | none => simp [hs, ht] at h
+    | some set =>
+      simp [hs, ht] at h
+      exact ⟨_, mem_of_lookup m _ _ ht, h, Or.inr rfl⟩
+  | some su =>
+    cases ht : m.lookup (lower tag) with
+    | none =>
+      simp [hs, ht] at h
+      exact ⟨_, mem_of_lookup m _ _ hs, h, Or.inl rfl⟩
+    | some set =>
+      simp [hs, ht] at h
+      rcases h with h | h
+      · exact ⟨_, mem_of_lookup m _ _ hs, h, Or.inl rfl⟩
+      · exact ⟨_, mem_of_lookup m _ _ ht, h, Or.inr rfl⟩
+
+/-! ### `str.lower` on ASCII -/
+
+theorem lowerCp_ascii : ∀ c, c < 128 → lowerCp c = [asciiLowerCp c] := by decide +kernel
+
+theorem pyLower_ascii (s : PStr) (h : ∀ c ∈ s, c < 128) : pyLower s = asciiLower s := by
+  induction s with
+  | nil => rfl
+  | cons c s ih =>
+    simp only [pyLower, List.flatMap_cons, asciiLower, List.map_cons] at ih ⊢
+    rw [lowerCp_ascii c (h c (by simp)), ih (fun x hx => h x (by simp [hx]))]
+    rfl
+
+/-! ### output -/
+
+theorem lexLe_total (a b : PStr) : lexLe a b = true ∨ lexLe b a = true := by
+  induction a generalizing b with
+  | nil => left; simp [lexLe]
+  | cons x xs ih =>
+    cases b with
+    | nil => right; simp [lexLe]
+    | cons y ys =>
+      simp only [lexLe]
+      by_cases h1 : x < y
+      · left; simp [h1]
+      · by_cases h2 : y < x
+        · right; simp [h2]
+        · simp only [h1, h2, if_false]; exact ih ys
+
+/-- adjacent elements are in key order -/
+def SortedAdj : Items → Prop
+  | [] => True
+  | [_] => True
+  | a :: b :: rest => lexLe a.1 b.1 = true ∧ SortedAdj (b :: rest)
+
+theorem insertItem_perm (p : PStr × PyVal) (d : Items) : (insertItem p d).Perm (p :: d) := by
+  induction d with
+  | nil => simp [insertItem]
+  | cons q qs ih =>
+    simp only [insertItem]
+    split
+    · exact List.Perm.refl _
+    · exact (List.Perm.cons q ih).trans (List.Perm.swap p q qs)
+
+theorem sortItems_perm (d : Items) : (sortItems d).Perm d := by
+  induction d with
+  | nil => simp [sortItems]
+  | cons p ps ih => exact (insertItem_perm p (sortItems ps)).trans (List.Perm.cons p ih)
+
+theorem insertItem_sorted (p : PStr × PyVal) (d : Items) (h : SortedAdj d) : SortedAdj (insertItem p d) := by
+  induction d with
+  | nil => simp [insertItem, SortedAdj]
+  | cons q qs ih =>
+    simp only [insertItem]
+    by_cases hpq : lexLe p.1 q.1 = true
+    · simp only [hpq, if_true]; exact ⟨hpq, h⟩
+    · simp only [hpq, Bool.false_eq_true, if_false]
+      have hqp : lexLe q.1 p.1 = true := by
+        rcases lexLe_total p.1 q.1 with h1 | h1
+        · exact absurd h1 hpq
+        · exact h1
+      cases qs with
+      | nil => simp [insertItem, SortedAdj, hqp]
+      | cons r rs =>
+        have hs : SortedAdj (r :: rs) := h.2
+        have ih' := ih hs
+        simp only [insertItem] at ih' ⊢
+        by_cases hpr : lexLe p.1 r.1 = true
+        · simp only [hpr, if_true] at ih' ⊢
+          exact ⟨hqp, ih'⟩
+        · simp only [hpr, Bool.false_eq_true, if_false] at ih' ⊢
+          exact ⟨h.1, ih'⟩
+
+theorem sortItems_sorted (d : Items) : SortedAdj (sortItems d) := by
+  induction d with
+  | nil => simp [sortItems, SortedAdj]
+  | cons p ps ih => exact insertItem_sorted p _ ih
+
+theorem quoted_delimits (v : PStr) :
+    ∃ q body, (q = 34 ∨ q = 39) ∧ quotedAttributeValue v = q :: body ++ [q] ∧ q ∉ body := by
+  by_cases h1 : v.contains 34 = true
+  · by_cases h2 : v.contains 39 = true
+    · refine ⟨34, v.flatMap (fun c => if c == 34 then quotEntity else [c]), Or.inl rfl, ?_, ?_⟩
+      · simp only [quotedAttributeValue, h1, h2, if_true]
+      · intro hm
+        obtain ⟨c, _, hc⟩ := List.mem_flatMap.mp hm
+        by_cases h34 : c = 34
+        · simp [h34, quotEntity] at hc
+        · have : (c == 34) = false := by simpa using h34
+          simp [this] at hc; exact h34 hc.symm
+    · have h2' : v.contains 39 = false := by simpa using h2
+      refine ⟨39, v, Or.inr rfl, ?_, ?_⟩
+      · simp only [quotedAttributeValue, h1, h2', if_true, Bool.false_eq_true, if_false]
+      · intro hm; apply h2; simpa using hm
+  · have h1' : v.contains 34 = false := by simpa using h1
+    refine ⟨34, v, Or.inl rfl, ?_, ?_⟩
+    · simp only [quotedAttributeValue, h1', Bool.false_eq_true, if_false]
+    · intro hm; apply h1; simpa using hm
+
+theorem mem_fmtAttributes (e : Bool) (items : Items) (p : PStr × PyVal) :
+    p ∈ fmtAttributes e items ↔
+      ∃ q ∈ items, p = (q.1, if e && q.2 == PyVal.str [] then PyVal.none else q.2) := by
+  unfold fmtAttributes
+  rw [(sortItems_perm _).mem_iff, List.mem_map]
+  constructor
+  · rintro ⟨q, hq, rfl⟩; exact ⟨q, hq, rfl⟩
+  · rintro ⟨q, hq, rfl⟩; exact ⟨q, hq, rfl⟩
+
+theorem length_formatAttrs (md : Nat) (f : FmtCfg) (d : Items) (l : List PStr) (h : formatAttrs md f d = .ok l) :
+    l.length = d.length := by
+  induction d generalizing l with
+  | nil => simp only [formatAttrs, Res.ok.injEq] at h; subst h; rfl
+  | cons p ps ih =>
+    simp only [formatAttrs] at h
+    cases h1 : formatAttr md f p with
+    | valueError => simp [h1, Res.bind] at h
+    | ok a =>
+      cases h2 : formatAttrs md f ps with
+      | valueError => simp [h1, h2, Res.bind] at h
+      | ok as =>
+        simp only [h1, h2, Res.bind, Res.ok.injEq] at h
+        subst h
+        simp [ih as h2]
+
+/-! ### reading and deleting -/
+
+theorem tagDel_get_self (t : TagAttrs) (k : PStr) (d : PyVal) : tagGet (tagDel t k) k d = d := by
+  simp [tagGet, tagDel, dictGet_del_self]
+
+theorem tagDel_get_other (t : TagAttrs) (k k' : PStr) (d : PyVal) (h : k' ≠ k) :
+    tagGet (tagDel t k) k' d = tagGet t k' d := by
+  simp [tagGet, tagDel, dictGet_del_other _ _ _ h]
+
+theorem hasAttr_tagDel (t : TagAttrs) (k k' : PStr) :
+    hasAttr (tagDel t k) k' = (hasAttr t k' && !(k' == k)) := by
+  simp only [hasAttr, tagDel, dictHas_eq_isSome]
+  by_cases h : k' = k
+  · subst h; simp [dictGet_del_self]
+  · have : (k' == k) = false := by simpa using h
+    simp [dictGet_del_other _ _ _ h, this]
+
+theorem dictDel_idem (d : Items) (k : PStr) : dictDel (dictDel d k) k = dictDel d k := by
+  simp [dictDel, List.filter_filter]
+
 end BS.Attrs
